@@ -556,7 +556,7 @@ func vfRunC13Sock(c vfSockCase) *kit.Result {
 		r.Failf("malformed case: %s", msg)
 		return r
 	}
-	if c.Cont && !vfDiskRoomy(os.TempDir()) {
+	if c.Cont && !vfDiskRoomy(vfScratchDir()) {
 		c.Cont = false
 		r.Class("disk_low_continuous_skipped")
 	}
@@ -656,7 +656,7 @@ func vfRunC14Sock(c vfSockCase) *kit.Result {
 			return r
 		}
 	}
-	if c.Cont && !vfDiskRoomy(os.TempDir()) {
+	if c.Cont && !vfDiskRoomy(vfScratchDir()) {
 		c.Cont = false
 		r.Class("disk_low_continuous_skipped")
 	}
